@@ -107,6 +107,16 @@ func daemonBody(registered string) {
 	err := daemon.Done()
 	os.WriteFile(filepath.Join(dir, "d-done.tmp"), []byte(fmt.Sprint(err)), 0644)
 	os.Rename(filepath.Join(dir, "d-done.tmp"), filepath.Join(dir, "d-done"))
+	// a daemon goes on working after the hand-over: once its launcher is gone
+	// it writes to its standard streams, as any logging daemon would
+	lpid := os.Getppid()
+	for i := 0; i < 3000 && os.Getppid() == lpid && syscall.Kill(lpid, 0) == nil; i++ {
+		time.Sleep(time.Millisecond)
+	}
+	time.Sleep(5 * time.Millisecond)
+	fmt.Fprintln(os.Stderr, "daemon", registered, "still here (stderr)")
+	fmt.Fprintln(os.Stdout, "daemon", registered, "still here (stdout)")
+	os.WriteFile(filepath.Join(dir, "io-done"), nil, 0644)
 	waitFile(filepath.Join(dir, "exit"), 60*time.Second)
 }
 
@@ -311,8 +321,11 @@ func runOne(base string, p plan, barrier *sync.WaitGroup) (o outcome) {
 		fail("done-error", "Done() returned %s", b)
 	}
 	time.Sleep(100 * time.Millisecond)
+	if !waitFile(filepath.Join(dir, "io-done"), 4*time.Second) && alive(daemonPid) {
+		fail("daemon-stuck", "the daemon (pid %d) did not get past writing to its standard streams after the hand-over", daemonPid)
+	}
 	if !alive(daemonPid) {
-		fail("daemon-died", "the daemon (pid %d) is not running 100ms after Launch returned", daemonPid)
+		fail("daemon-died", "the daemon (pid %d) is not running after Launch returned (it writes a line to stderr and stdout once its launcher is gone)", daemonPid)
 	} else if pp := ppidOf(daemonPid); pp == os.Getpid() || pp == lpid {
 		fail("not-orphaned", "the daemon's parent is %d (caller %d, launcher %d)", pp, os.Getpid(), lpid)
 	} else {
